@@ -24,6 +24,20 @@ def run_lines(exe, lines, tag, mode=None, timeout=1500):
     return res
 
 
+def run_parallel(exe, lines, tag, nproc=4, timeout=2400):
+    """the same as run_lines, the cases spread round-robin over nproc harness processes"""
+    import concurrent.futures
+    chunks = [lines[i::nproc] for i in range(nproc)]
+    res = [None] * len(lines)
+    with concurrent.futures.ThreadPoolExecutor(max_workers=nproc) as ex:
+        futs = {ex.submit(run_lines, exe, ch, "%s%d" % (tag, i), None, timeout): i for i, ch in enumerate(chunks) if ch}
+        for f in concurrent.futures.as_completed(futs):
+            i = futs[f]
+            for n, o in enumerate(f.result()):
+                res[i + n * nproc] = o
+    return res
+
+
 def kv(head):
     return dict(t.split("=", 1) for t in head.split() if "=" in t)
 
@@ -87,11 +101,32 @@ def run(ctx):
     # keep_delete 0: outside the premise on purpose (classification only)
     for _ in range(12 if thorough else 4):
         lines.append("%d %d %d %d %d %d" % (rng.randrange(1, 2 ** 40), rng.choice([0, 1]), rng.randrange(0, 7), 0, 0, rng.choice([1, 3])))
+    # the recovering prune runs AFTER the marks expired (short keep_delete + sleep): a backup reused blobs of
+    # packs a concurrent prune marked; finishing before expiry (inside the premise) and after it (bit 4)
+    kds = 800
+    rec = [(4, 0, 8), (4, 0, 8 | 32), (0, 0, 8), (1, 1, 8), (4, 0, 8 | 16), (4, 1, 8 | 2)]
+    if thorough:
+        rec += [(4, k, v) for k in (0, 1, 2) for v in (8, 8 | 2, 8 | 32, 8 | 16 | 32)] + [(0, k, 8) for k in (1, 2, 3)] + [(1, k, 8) for k in (0, 2, 3)]
+    for scen, k, v in rec:
+        lines.append("%d %d %d 0 %d %d" % (rng.randrange(1, 2 ** 40), scen, k, kds, v))
+    # the prune finds EVERY pack unused (the only snapshot is forgotten while a backup that loaded the index is parked)
+    allun = [(5, k, j, v) for k in (0, 1) for j in (0, 1) for v in (0, 2)] + [(5, 2, 0, 0), (5, 3, 0, 2)]
+    if thorough:
+        allun += [(5, k, j, v) for k in (2, 3, 4) for j in (0, 2, 3) for v in (0, 2)]
+    for scen, k, j, v in allun:
+        lines.append("%d %d %d %d %d %d" % (rng.randrange(1, 2 ** 40), scen, k, j, big, v))
+    lines.append("%d 5 0 0 %d 8" % (rng.randrange(1, 2 ** 40), kds))
+    # marked packs whose keep_delete has EXPIRED, then backup reads the index || prune deletes them
+    exp = [(4, 0, 1 | 4 | 32), (4, 0, 1 | 4), (4, 0, 1 | 4 | 32 | 8), (4, 1, 1 | 4 | 8), (0, 0, 1 | 4 | 32)]
+    if thorough:
+        exp += [(4, k, v) for k in (0, 1, 2) for v in (37, 5, 45, 13, 39)] + [(0, k, 37) for k in (1, 2)]
+    for scen, k, v in exp:
+        lines.append("%d %d %d 0 %d %d" % (rng.randrange(1, 2 ** 40), scen, k, kds, v))
     nwit = 3 if thorough else 1
     for _ in range(nwit):
         lines.append("%d 3 0 0 %d 0" % (rng.randrange(1, 2 ** 40), rng.choice([1500, 2000])))
 
-    outs = run_lines(impl, lines, "impl", timeout=2400)
+    outs = run_parallel(impl, lines, "impl")
     parsed, mlines = [], []
     harness_errors = []
     for ln, o in zip(lines, outs):
@@ -109,7 +144,7 @@ def run(ctx):
 
     hist, todo_hist = {}, {}
     stats = {"cases": len(lines), "A_parked": 0, "B_parked": 0, "A_failed": 0, "B_failed": 0, "premise_violated": 0,
-             "outside_literal_premise": 0, "witness_reproduced": 0, "witness_runs": 0, "lost_inside_premise": 0,
+             "outside_literal_premise": 0, "witness_reproduced": 0, "witness_runs": 0, "lost_inside_premise": 0, "recover_after_expiry": 0,
              "by_scenario": {}}
     nontriv = 0
     mism, viol, samples = [], [], []
@@ -133,8 +168,13 @@ def run(ctx):
             if "=" in t:
                 k_, v_ = t.rsplit("=", 1)
                 (todo_hist if k_.startswith("todo:") else hist)[k_] = (todo_hist if k_.startswith("todo:") else hist).get(k_, 0) + int(v_)
-        timely = mh.get("timely", "true") == "true"
-        short = mh.get("short", "true") == "true"
+        replay_ok = mh.get("run") == "ok"
+        # the model's `timely` is only meaningful when the whole log is a path of the model
+        timely = mh.get("timely", "true") == "true" if replay_ok else True
+        # the literal premise, measured on the real run: every backup was shorter than keep_delete
+        short = int(h["maxbk"]) < int(h["kdms"])
+        if "todo:Recover" in (mh.get("hist") or "") and int(h["variant"]) & 8 and replay_ok:
+            stats["recover_after_expiry"] += 1
         if len(samples) < 3 and h["parkedA"] == "1":
             samples.append({"case": ln, "result": segs_short(h), "model": {k_: mh.get(k_) for k_ in ("run", "steps", "timely", "stored_always", "held_always", "closed_final")},
                             "events_head": evs[:400]})
@@ -143,11 +183,14 @@ def run(ctx):
             if lost:
                 stats["witness_reproduced"] += 1
                 inside_literal = int(h["durB"]) < int(h["kd"]) * 10
+                if not inside_literal:
+                    stats["outside_literal_premise"] += 1
+                    continue
                 ctx.violation("a backup shorter than keep_delete (%s ms < %s ms) loses data when a slow prune publishes marks dated with its plan time and a second prune deletes the packs (replay of slow_prune_refuted on the real code: check clean=%s, snapshots failing restore=%s, further prune ok=%s)"
                               % (h["durB"], int(h["kd"]) * 10, h["clean"], h["badrestore"], h["further"]),
                               {"case": ln, "how_to_replay": "echo '<case>' | <harness>/debug/c10 -", "result": segs_short(h),
                                "model_timely": mh.get("timely"), "model_short_backups": mh.get("short")},
-                              signature=SIG if inside_literal else None)
+                              signature=SIG)
             # correspondence for the witness run: the model must also lose the blob
             if m and mh.get("run") == "ok" and lost and mh.get("stored_final") == "true":
                 mism.append((ln, "real run loses data, model run does not", m[:300]))
@@ -172,10 +215,13 @@ def run(ctx):
 
     cov.update({
         "evaluations": len(lines), "distinct_nontrivial": nontriv,
-        "rule": "case = seeded repository (two backups of 5-8 one-blob files each + shared files, first snapshot forgotten; optional earlier prune), then command A parked before its k-th mutating backend operation (k = 0..%d, beyond the last operation = sequential) while B runs fully (j=0) or up to its j-th operation, for backup||prune, prune||backup, backup||backup; prune variants keep / repack; keep_delete 22 h, 0.3-0.4 s with marks expiring before the concurrent phase, and 0; then a further prune, check(read_data), restore of every snapshot compared with its source. non-trivial = A really parked and B completed" % (kmax - 1),
+        "rule": "case = seeded repository (two backups of 5-8 one-blob files each + shared files, first snapshot forgotten; optional earlier prune), then command A parked before its k-th mutating backend operation (k = 0..%d, beyond the last operation = sequential) while B runs fully (j=0) or up to its j-th operation, for backup||prune, prune||backup, backup||backup; prune variants keep / repack; keep_delete 22 h, 0.3-0.4 s with marks expiring before the concurrent phase, and 0; plus: the recovering prune run only after the marks expired (keep_delete 0.8 s + sleep; backup finishing before / after expiry), the only snapshot forgotten while a backup is parked (the prune marks EVERY pack), marked packs already expired when the backup loads the index and the prune deletes them; then a further prune, check(read_data), restore of every snapshot compared with its source. non-trivial = A really parked and B completed" % (kmax - 1),
         "samples": samples, "distribution": {"model_events": hist, "prune_decisions": todo_hist, **stats},
         "traces_validated_against_impl": len(mouts), "disagreements_checked": len(mism) + len(viol) + len(harness_errors),
         "model_impl_mismatches": len(mism), "oracle_violations": len(viol), "harness_errors": len(harness_errors)})
+    if stats["recover_after_expiry"] == 0:
+        ctx.violation("no run in which the prune after the expiry of the marks RECOVERED a pack a late backup reused (the schedule class the property names is not exercised, or recovery no longer happens)",
+                      {"cases": [l for l in lines if int(l.split()[5]) & 8][:6]}, no_input=not viol)
     for ln, h, m in viol[:10]:
         ctx.violation("data lost inside the property's premise: after overlapping commands and a further prune, check / restore fails",
                       {"case": ln, "result": segs_short(h), "model": m[:600] if m else None,
